@@ -64,6 +64,8 @@ def keyswitch_entry_by_interpretation(chk, v, e):
                 return ("raw", 0)
             if t == P(s, "a"):
                 return ("a", 0)
+            if t == P(k, "ks"):
+                return ("ks", 0)                                # the table of per-coefficient row tables: offset counts coefficients
             if t[0] == "addr" and t[1][0] == "idx":
                 b_ = self.pval(t[1][1], env)
                 o_ = self.ival(t[1][2], env)
@@ -172,9 +174,22 @@ def keyswitch_entry_by_interpretation(chk, v, e):
                     raise concrete.NotEvaluable("lweSubTo(%s, %s) at line %s: row not resolved" % (sym.show(a[0])[:20], sym.show(a[1])[:60], x.get("l")))
                 self.rows.append(pv[1])
             elif nm == "lweKeySwitchTranslate_fromArray":
-                if a != [R_, P(k, "ks"), P(k, "out_params"), P(s, "a"), n_t, t_t, bb_t]:
-                    raise concrete.NotEvaluable("translation called with other arguments than the key's own at line %s" % x.get("l"))
-                self.translated += 1
+                if a == [R_, P(k, "ks"), P(k, "out_params"), P(s, "a"), n_t, t_t, bb_t]:
+                    self.translated += 1
+                    return None
+                # the translation applied to a sub-range of the coefficients (the mask split in blocks): by its specification (R1) it
+                # subtracts, for each coefficient i of its range and each level j, the row (i, j, digit_j(a_i))
+                kp, ap = self.pval(a[1], env), self.pval(a[3], env)
+                cnt, tt, bbv = self.ival(a[4], env), self.ival(a[5], env), self.ival(a[6], env)
+                if a[0] != R_ or a[2] != P(k, "out_params") or kp is None or ap is None or kp[0] != "ks" or ap[0] != "a" or cnt is None \
+                        or tt != self.t or bbv != self.bb or not (0 <= kp[1] and kp[1] + cnt <= self.n and 0 <= ap[1] and ap[1] + cnt <= self.n):
+                    raise concrete.NotEvaluable("translation called with arguments that do not resolve to a range of the key's own tables at line %s" % x.get("l"))
+                off_ = 1 << (32 - (1 + self.bb * self.t))
+                for q_ in range(cnt):
+                    ab_ = (self.a[ap[1] + q_] + off_) & M32
+                    for j_ in range(self.t):
+                        d_ = (ab_ >> (32 - (j_ + 1) * self.bb)) & ((1 << self.bb) - 1)
+                        self.rows.append(((kp[1] + q_) * self.t + j_) * self.base + d_)
             else:
                 raise concrete.NotEvaluable("call of %s at line %s" % (nm, x.get("l")))
             return None
